@@ -678,11 +678,11 @@ func TestVerif_C04(t *testing.T) {
 			os.RemoveAll(c04Scratch)
 		}
 	}()
-	R.Rule = "reference model = map key->value. Cases: (small-sets) every subset of <=4 keys of a universe with key lengths 0/1/8/32/64 (two prefix pairs) x every insertion order x every value shape x declared count in {1,n,n+1,10n}: each inserted key must return exactly its value (prefetch on and off), sealed bytes equal across orders and across two seals; (population) every bucket population 1..N in one bucket; (boundary) 9999/10000/10001/20000/20001 keys, natural or all forced into bucket 0, declared n/n+1/10n/1, build must succeed unless a bucket holds more than 10000 keys; (edge) contract edges must end in an error or a correct index, never a panic or a wrong/missing lookup. One evaluation = one real NewBuilder/Insert/Seal/Open/Lookup round; non-trivial = at least two keys or an edge/boundary input."
+	R.Rule = "reference model = map key->value. Cases: (small-sets) every subset of <=4 (thorough: <=5) keys of a universe with key lengths 0/1/8/32/64 (two prefix pairs) x every insertion order x every value shape x declared count in {1,n,n+1,10n}: each inserted key must return exactly its value (prefetch on and off), sealed bytes equal across orders and across two seals; (population) every bucket population 1..N in one bucket; (boundary) 9999/10000/10001/20000/20001 keys, natural or all forced into bucket 0, declared n/n+1/10n/1, build must succeed unless a bucket holds more than 10000 keys; (edge) contract edges must end in an error or a correct index, never a panic or a wrong/missing lookup. One evaluation = one real NewBuilder/Insert/Seal/Open/Lookup round; non-trivial = at least two keys or an edge/boundary input."
 	uniSize, maxSub, maxPop := 6, 4, 300
 	boundaryNs := []int{9999, 10000, 10001}
 	if vkit.Thorough() {
-		uniSize, maxSub, maxPop = 8, 4, 1200
+		uniSize, maxSub, maxPop = 8, 5, 1200
 		boundaryNs = []int{9999, 10000, 10001, 20000, 20001, 60000}
 	}
 	edges := append(c04GenericEdges(), c04FormatEdges()...)
